@@ -5,6 +5,7 @@ import DSV.Model.Backend
 import DSV.Model.Hint
 import DSV.Model.Meta
 import DSV.Model.Gc
+import DSV.Model.Occ
 /-!
 Line-protocol driver: one request per line on stdin, one reply per line on stdout.
 First token selects the model function.  Imports only `DSV.Model.*` (core Lean), so it links natively.
@@ -444,6 +445,100 @@ def handleGc (cmd : String) (args : List String) : String :=
       | _, _, _, _ => "bad-op"
   | _, _ => "bad-op"
 
+/-! #### OCC protocol: trace acceptance -/
+open DSV.Occ in
+def parseKv (t : String) : Option (String × String) :=
+  match t.splitOn "=" with
+  | [k, v] => some (k, v)
+  | _ => none
+
+open DSV.Occ in
+structure TraceSt where
+  sys : Sys
+  idx : Nat
+
+open DSV.Occ in
+/-- one observed step `a:act[:args]`; returns the new system or an error text -/
+def occStep (cfg : Cfg) (s : Sys) (tok : String) : Except String Sys :=
+  match tok.splitOn ":" with
+  | ["tick", d] => match d.toNat? with
+      | some n => match step cfg s 0 (.tick n) with | some s' => .ok s' | none => .error "reject tick"
+      | none => .error "bad tick"
+  | a :: act :: args =>
+      match a.toNat? with
+      | none => .error "bad actor"
+      | some ai =>
+        let run (ac : Act) : Except String Sys :=
+          match step cfg s ai ac with
+          | some s' => .ok s'
+          | none => .error s!"reject {act} (not enabled for actor {ai})"
+        match act, args with
+        | "readBase", [fid] =>
+            match current s with
+            | some c => if some c.fid = fid.toNat? then run .readBase else .error s!"mismatch readBase model={c.fid} impl={fid}"
+            | none => .error "model has no current version"
+        | "acquire", [] => run .acquire
+        | "validate", [fid, outcome] =>
+            match current s with
+            | some c =>
+                if some c.fid ≠ fid.toNat? then .error s!"mismatch validate-read model={c.fid} impl={fid}"
+                else match run .validate with
+                  | .ok s' =>
+                      let isConf : Bool := match s'.pc ai with | .conflict => true | _ => false
+                      if isConf == (outcome == "conf") then .ok s'
+                      else .error s!"mismatch validate-outcome model={if isConf then "conf" else "ok"} impl={outcome}"
+                  | .error e => .error e
+            | none => .error "model has no current version"
+        | "etag", [] => run .etagRead
+        | "write", [fid, lu, cur, t] =>
+            match run (.writeMeta (t.toNat?.getD 0)) with
+            | .ok s' =>
+                match s'.pc ai with
+                | .wrote b n _ =>
+                    if some n.fid ≠ fid.toNat? then .error s!"mismatch write-fid model={n.fid} impl={fid}"
+                    else if some n.lu ≠ lu.toNat? then .error s!"mismatch write-lu model={n.lu} impl={lu}"
+                    else if (cur == "same") != (n.cur == b.cur) then .error s!"mismatch write-cur model-same={n.cur == b.cur} impl={cur}"
+                    else .ok s'
+                | _ => .error "model not in wrote"
+            | .error e => .error e
+        | "fence", [h] => run (.fence (h = "1"))
+        | "flip", [outcome] =>
+            match run .flip with
+            | .ok s' =>
+                let isConf : Bool := match s'.pc ai with | .conflict => true | _ => false
+                if isConf == (outcome == "conf") then .ok s'
+                else .error s!"mismatch flip-outcome model={if isConf then "conf" else "ok"} impl={outcome}"
+            | .error e => .error e
+        | "release", [r] => run (.release (r = "retry"))
+        | _, _ => .error s!"bad step {tok}"
+  | _ => .error s!"bad step {tok}"
+
+open DSV.Occ in
+def handleOcc (args : List String) : String :=
+  -- occ.trace cas=0 excl=1 strict=0 single=0 kinds=1:m,2:s now=5000 | steps…
+  let (hdr, rest) := args.span (· ≠ "|")
+  let steps := rest.drop 1
+  let kv := hdr.filterMap parseKv
+  let get (k : String) : String := (kv.find? (·.1 == k)).map (·.2) |>.getD ""
+  let cfg : Cfg := { cas := get "cas" = "1", exclusive := get "excl" = "1", strictStamp := get "strict" = "1", singleRead := get "single" = "1" }
+  let kinds : List (Nat × Kind) := ((get "kinds").splitOn ",").filterMap fun t =>
+    match t.splitOn ":" with
+    | [a, k] => a.toNat?.map fun n => (n, if k = "m" then Kind.metaOnly else Kind.snap)
+    | _ => none
+  let kindF : Nat → Kind := fun a => (kinds.find? (·.1 == a)).map (·.2) |>.getD Kind.snap
+  let s0 := init kindF
+  let s0 := { s0 with now := (get "now").toNat?.getD 0,
+                      files := [{ fid := 0, cur := 0, lu := (get "lu0").toNat?.getD 0, applied := [] }] }
+  let rec go (s : Sys) (i : Nat) : List String → String
+    | [] =>
+        let fl := s.flips.reverse.map fun f => s!"{f.actor}:{f.base}>{f.replaced}>{f.new}"
+        let ok := s.flips.all fun f => f.base == f.replaced
+        s!"ok hint={s.hint.fid} flips={",".intercalate fl} serial={ok}"
+    | t :: ts => match occStep cfg s t with
+        | .ok s' => go s' (i + 1) ts
+        | .error e => s!"fail step {i} {t}: {e}"
+  go s0 0 steps
+
 def handle (line : String) : String :=
   match splitWs line with
   | [] => "bad-op"
@@ -454,6 +549,7 @@ def handle (line : String) : String :=
     else if cmd.startsWith "hint." then handleHint cmd args
     else if cmd.startsWith "meta." then handleMeta cmd args
     else if cmd.startsWith "gc." then handleGc cmd args
+    else if cmd = "occ.trace" then handleOcc args
     else if cmd.startsWith "rng." || cmd.startsWith "retry." || cmd.startsWith "ls." then handleBackend cmd args
     else "bad-op"
 
